@@ -112,6 +112,24 @@ def check_component(ctx, comp, terms, domains, na, nx, mode, pts, case, sig_pref
                             f'(error {float(abs(Fraction(got) - ref)) if got == got else "nan":.3e}, allowed {float(bound):.1e})',
                             {**case, 'x': x, 'output': out, 'mode': mode})
                 return False
+    # the same evaluation through an executor (the tensor interpolants are evaluated as separate jobs) must give the same values
+    if pts and getattr(ctx, 'tier', 'quick') is not None:
+        from concurrent.futures import ThreadPoolExecutor
+        xin = {v: comp.inputs[v].normalize(np.array([x[k] for x in pts])) for k, v in enumerate(names)}
+        try:
+            serial = comp.predict(xin, index_set=mode)
+            with ThreadPoolExecutor(max_workers=3) as pool:
+                par = comp.predict(xin, index_set=mode, executor=pool)
+        except Exception as e:
+            ctx.violate(f'{sig_prefix}:predict-raises', f'Component.predict with an executor raised {type(e).__name__}: {e}', {**case, 'executor': True}); return
+        for out in terms:
+            a, b = np.ravel(serial[out]), np.ravel(par[out])
+            scale = 1.0 + float(np.max(np.abs(a[np.isfinite(a)]))) if np.isfinite(a).any() else 1.0
+            if a.shape != b.shape or not np.allclose(a, b, rtol=0, atol=1e-9 * scale, equal_nan=True):
+                ctx.violate(f'{sig_prefix}:not-exact', f'{mode}-mode surrogate of {out} evaluated through an executor differs from the serial evaluation '
+                            f'(max difference {float(np.nanmax(np.abs(a - b))) if a.shape == b.shape else "shape"})',
+                            {**case, 'output': out, 'mode': mode, 'executor': True})
+                return False
     return True
 
 
